@@ -66,6 +66,12 @@ def run(tier):
                 for b in ("a", "b"):
                     dealers.append({"kind": "early", "proto": pr, "n": 2, "t": 1, "byz": b, "round": sl["round"], "leaf": li,
                                     "alt": "flipfirst" if (li + len(dealers)) % 2 else "random", "sched": vlib.seed() * 3 + len(dealers)})
+    # a CMP dealer whose shares are in range but not on the polynomial it committed to (about 12 s per case)
+    dealers += [{"kind": "dealercheat", "proto": pr, "n": 3, "t": 1, "byz": "abc"[(i + vlib.seed()) % 3], "alt": "wrongshares", "sched": vlib.seed() + 500 + i}
+           for i, pr in enumerate(("cmp-keygen", "cmp-refresh") if not quick else ("cmp-keygen",))]
+    # a dealer whose contribution to the key is the identity (zero constant term, forged proof of knowledge)
+    dealers += [{"kind": "dealercheat", "proto": pr, "n": 3, "t": 1, "byz": b, "alt": "zero", "sched": vlib.seed() + 400 + i}
+                for i, (pr, b) in enumerate((pr, b) for pr in ("frost-keygen", "taproot-keygen", "cmp-keygen") for b in ("a", "b", "c"))]
     st = adv.run_family(rep, wd, plan(quick), PROP, vlib.seed(), {"C03"}, shards=14, extra_scen=dealers)
     rep.cov.update({"distinct_nontrivial": st["distinct"], "states": st["states"], "transitions": st["transitions"],
                     "traces_validated_against_impl": st["traces"], "trace_lines": st["lines"], "catalogue_cases": st["catalogue"],
